@@ -317,7 +317,7 @@ def run(v, tier, seed, g):
         v.violation("optimizer-model-desugar", "Opt.desugar (Section = declarations ; { statements }) differs from the exporter's desugaring of the same code list",
                     {"compared": oc.get("desugar_compared"), "equal": oc.get("desugar_equal")}, no_input=True)
     v.notes["optimizer_model"] = {k: oc.get(k) for k in ("cases", "calls", "matched", "changed", "unsupported", "kinds", "desugar_compared", "desugar_equal",
-                                                         "side_condition_true", "side_condition_false", "side_condition_false_calls")}
+                                                         "side_condition_true", "side_condition_false", "side_condition_false_calls", "calls_with_shadowing")}
     v.notes["optimizer_model"]["meaning"] = ("matched: Opt.optimize returns the tree optimizer.optimize returned (node by node); side_condition_true: OptSound.opt_ok holds for the "
                                              "captured input, so section and loop fusion are PROVED to refine it for all inputs (C17_section_and_loop_fusion_preserve_the_kernel_body)")
     # ---- LN.exec itself against gcc (ties the semantics every AST theorem rests on) ------------
